@@ -212,7 +212,8 @@ def run_long(case, ctx):
             # gets coefficient 1, so long strings underflow to log(0) although they are members
             gap = any(complete(k) == 0 for k in range(1, len(x)))
             mech = "rescaled.logp/value"
-            if not good and float(v) == -math.inf and gap and logw < math.log(1e-290):
+            if not good and gap and logw < math.log(1e-290):
+                # hard underflow (-inf) or gradual underflow (subnormal chart values: a few correct digits only)
                 mech = "rescaled.logp/underflow-on-non-prefix-closed-grammar"
             ctx.check(api, good, mech, case, {"have": float(v), "want": logw, "len": len(x), "some_prefix_not_in_language": gap})
         if logw > math.log(1e-250):
@@ -304,6 +305,13 @@ def run_case(case, ctx):
         ctx.skip("case", "zero-total-weight")
         return
     unit = Z if case["normalise"] else 1
+    # The library truncates every fixed point at 1e-12 ABSOLUTE, so a total / null weight z carries a relative
+    # error of order 1e-12/z which propagates to conditionals and normalised weights: scale the tolerance.
+    zpos = [float(v) for v in list(O.Z.values()) + list(O.e.values()) if v > 0]
+    rt = 1e-7 + 1e-10 / min(zpos)
+    if rt > 1e-4:
+        ctx.skip("case", "generator:truncation-dominated")
+        return
     alphabet = sorted(g["V"]) + [EOS]
     contexts = list(GG.strings_upto(g["V"], case["maxlen"]))
     # a few contexts that contain EOS (dead by construction)
@@ -355,7 +363,7 @@ def run_case(case, ctx):
                 ctx.skip(api, "tiny-prefix-weight")
                 continue
             wantd = {t: float(P(c + (t,)) / pc) for t in alphabet}
-            good = all(abs(vals[t] - wantd[t]) <= 1e-7 for t in alphabet) and not extra
+            good = all(abs(vals[t] - wantd[t]) <= rt for t in alphabet) and not extra
             mech = f"{name}.p_next/conditional"
             if good and abs(sum(vals.values()) - 1.0) > 1e-7:
                 good, mech = False, f"{name}.p_next/not-normalised"
@@ -370,7 +378,7 @@ def run_case(case, ctx):
             c2 = dict(case, x=list(x), backend=name)
             ok, v = ctx.call(api, c2, lm, x + (EOS,))
             if ok:
-                ctx.check(api, close2(v, wx / Z, 1e-7, 1e-10), f"{name}.__call__/chain-rule", c2, {"have": v, "want": wx / Z})
+                ctx.check(api, close2(v, wx / Z, 4 * rt, 1e-10), f"{name}.__call__/chain-rule", c2, {"have": v, "want": wx / Z})
     # unnormalised next-token weights = parser weight of context + token (judged by the oracle's prefix weights)
     if "EarleyLM" in lms:
         model = lms["EarleyLM"].model
@@ -379,7 +387,7 @@ def run_case(case, ctx):
             c2 = dict(case, context=list(c))
             ok, q = ctx.call(api, c2, lambda: model.next_token_weights(model.chart(c)))
             if ok:
-                good = all(close2(q[t], P(c + (t,)) / unit, 1e-8, 1e-10) for t in alphabet)
+                good = all(close2(q[t], P(c + (t,)) / unit, rt, 1e-10) for t in alphabet)
                 ctx.check(api, good, "earley.next_token_weights/unnormalised", c2,
                           {"have": {t: q[t] for t in alphabet}, "want": {t: P(c + (t,)) / unit for t in alphabet}})
                 # and against the parser itself
@@ -395,7 +403,7 @@ def run_case(case, ctx):
             c2 = dict(case, context=list(c))
             ok, q = ctx.call(api, c2, model.p_next, c)
             if ok:
-                good = all(close2(q[t], P(c + (t,)) / unit, 1e-8, 1e-10) for t in alphabet)
+                good = all(close2(q[t], P(c + (t,)) / unit, rt, 1e-10) for t in alphabet)
                 ctx.check(api, good, "cky.next_token_weights/unnormalised", c2,
                           {"have": {t: q[t] for t in alphabet}, "want": {t: P(c + (t,)) / unit for t in alphabet}})
                 for t in alphabet[:2]:
